@@ -511,8 +511,15 @@ async fn run_case(cx: &Ctx<'_>, seed: u64, idx: u64, thorough: bool, selftest: b
                     cx.behaviour.add(&format!("{} with unresolvable key -> error {}", api.name(), e.class()), 1);
                     hostile_lists += 1;
                     if matches!(e, Fail::Panic(_)) {
+                        let none_resolves = expected.iter().all(|x| x.is_none());
+                        let sig = if none_resolves {
+                            // one class for all APIs: the panic site decides
+                            format!("take-panics-when-no-key-resolves[{}]", crate::c11::err_site(&e.msg()))
+                        } else {
+                            format!("{}-panics-on-unresolvable-key", api.tag())
+                        };
                         cx.report.violation(
-                            &format!("{}-panics-on-unresolvable-key", api.tag()),
+                            &sig,
                             "random access with a deleted / out-of-range key panics",
                             witness(json!({"error": e.brief()})),
                         );
